@@ -188,6 +188,11 @@ def run_property(pid, tier="quick", seed=0, only=None, verbose=False, do_bounded
     if contracts:
         from . import lemmas
         lem = lemmas.prove_all()
+        leanfiles = sorted({f for con in contracts for f in getattr(con, "lean", [])})
+        for f in leanfiles:
+            ok, msg = lemmas.check_lean(f)
+            lem.append(("lean kernel accepts %s" % f, ok))
+            backends["lean-4"] = backends.get("lean-4", 0) + 1
         for name, ok in lem:
             obl_total += 1
             obl_ok += 1 if ok else 0
